@@ -195,17 +195,28 @@ def k_reuse(ctx, seed, start="ctor"):
                     src=rand_uint(r, 8 * idw), seq=rand_uint(r, 8 * seqw), dst=rand_uint(r, 8 * idw))
 
     f = rnd_fields()
-    ok, hc = attempt(_mk_header, f)
+    if start == "default_conf":
+        # the documented ready-made configuration (one-octet ids, all zero), filled in afterwards through the field objects
+        f.update(direction=0, mode=0, crc=0, large=0, segctrl=0, idw=1, seqw=1, src=0, seq=0, dst=0)
+        ok, hc = attempt(lambda: (X.PduHeader(pdu_type=d.PduType(f["pdu_type"]), segment_metadata_flag=d.SegmentMetadataFlag(f["segmeta"]),
+                                              pdu_data_field_len=f["data_len"], pdu_conf=X.conf.PduConfig.default()), None))
+    else:
+        ok, hc = attempt(_mk_header, f)
     if not ctx.check("hdr.reuse", ok, "construct_raised", "", case, error=repr(hc)):
         return
     h = hc[0]
     if start == "unpack":
         h = X.PduHeader.unpack(bytes(h.pack()))
+    if start == "default_conf":
+        want0 = R.header(*(f[k] for k in FIELDS))
+        ok, p0 = attempt(lambda: bytes(h.pack()))
+        if not ctx.check("hdr.reuse", ok and p0 == want0, "octets_of_default_configuration", "", case, expected=want0, observed=p0 if ok else repr(p0)):
+            return
     trail = []
     for rnd in range(hist_len(r, 1, 5)):
         if r.random() < 0.7:
             h.pack()
-        inplace = r.random() < 0.5
+        inplace = r.random() < 0.5 or (start == "default_conf" and rnd == 0)
         g = rnd_fields(f["idw"], f["seqw"]) if inplace else rnd_fields()
         if not inplace and r.random() < 0.3:
             # numeric twins: same ids / sequence number as before, carried in other widths
@@ -365,7 +376,7 @@ def _run_constants(ctx):
 
 def _run_reuse(ctx):
     for j in range(ctx.n(1200, 60_000)):
-        k_reuse(ctx, ctx.seed * 1_000_003 + ctx.shard[0] * 100_003 + j, "unpack" if j % 3 == 0 else "ctor")
+        k_reuse(ctx, ctx.seed * 1_000_003 + ctx.shard[0] * 100_003 + j, "unpack" if j % 3 == 0 else "default_conf" if j % 7 == 1 else "ctor")
 
 
 def conclude(ctx):
